@@ -392,7 +392,12 @@ def activity(cx):
     for ty in ("MsgAppendResponse", "MsgHeartbeatResponse"):
         cx.check(ty in arms, "arm:" + ty, "the %s arm sets recent_active on the sender's progress" % ty)
     ac = cx.fn("ProgressTracker::apply_conf")
-    ok = any(s.fn is ac and "stmt" in s.data and write_value(cx, s) == ("bool", True) for s in cx.prog.writes.get("Progress.recent_active", []))
+    helpers = {ac.key}
+    for sp, c in cx.prog.calls_out[ac.key]:
+        hf = cx.prog.fn_by_short(sp) if c.kind == "call" and sp in cx.prog.short else None
+        if hf is not None and hf.vis != "Public" and hf.impl_adt == ac.impl_adt:
+            helpers.add(hf.key)
+    ok = any(s.fn.key in helpers and "stmt" in s.data and write_value(cx, s) == ("bool", True) for s in cx.prog.writes.get("Progress.recent_active", []))
     cx.check(ok, "apply_conf", "a freshly added peer starts recently active (it cannot have answered yet)")
 
 
